@@ -102,20 +102,19 @@ def c15_2(ctx):
     a = ctx.func(BC, "BlockChain.add_headers")
     w = sym.walk(ctx, a, int_names=INTS)
     # every ('add', block, k) appended in a loop is paired with hash_to_index_lookup[h] = k in the same iteration
-    adds = [e for e in w.effects if e.kind == "call" and norm(e.raw.func).endswith(".append") and e.call.args and isinstance(e.call.args[0], ast.Tuple) and len(e.call.args[0].elts) == 3
-            and isinstance(e.call.args[0].elts[0], ast.Constant) and e.call.args[0].elts[0].value == "add" and e.loops]
-    if not adds:
-        raise Undecided("add_headers: no ('add', block, index) appended inside a loop")
-    for e in adds:
-        idx = norm(e.call.args[0].elts[2])
-        maps = [x for x in w.effects if x.kind == "setitem" and norm(x.target) == "self.hash_to_index_lookup" and x.loops and x.loops[-1].node is e.loops[-1].node]
-        ctx.check(len(maps) == 1 and norm(maps[0].value) == idx, "add-lockstep", ctx.where(a, e.node),
+    apps = [(lp, name, e, r) for lp, name, e, r in sym.appended_in_loops(w) if isinstance(e, ast.Tuple) and len(e.elts) == 3 and isinstance(e.elts[0], ast.Constant)]
+    adds = [x for x in apps if x[2].elts[0].value == "add"]
+    rms = [x for x in apps if x[2].elts[0].value == "remove"]
+    if not adds or not rms:
+        raise Undecided("add_headers: ('add' | 'remove', block, index) operations are not appended inside loops")
+    for lp, name, e, r in adds:
+        idx = norm(e.elts[2])
+        maps = [x for x in w.effects if x.kind == "setitem" and norm(x.target) == "self.hash_to_index_lookup" and x.loops and x.loops[-1].node is lp]
+        ctx.check(len(maps) == 1 and norm(maps[0].value) == idx, "add-lockstep", ctx.where(a, lp),
                   "('add', block, %s) is recorded while hash_to_index_lookup[h] = %s: the operations and the index map disagree" % (idx, [norm(m.value) for m in maps]), sample={"add_index": idx, "map_index": [norm(m.value) for m in maps]})
-    rms = [e for e in w.effects if e.kind == "call" and norm(e.raw.func).endswith(".append") and e.call.args and isinstance(e.call.args[0], ast.Tuple) and len(e.call.args[0].elts) == 3
-           and isinstance(e.call.args[0].elts[0], ast.Constant) and e.call.args[0].elts[0].value == "remove" and e.loops]
-    for e in rms:
-        dels = [x for x in w.effects if x.kind == "delitem" and norm(x.target) == "self.hash_to_index_lookup" and x.loops and x.loops[-1].node is e.loops[-1].node]
-        ctx.check(len(dels) == 1, "remove-lockstep", ctx.where(a, e.node), "a ('remove', block, k) operation is not paired with `del hash_to_index_lookup[h]`")
+    for lp, name, e, r in rms:
+        dels = [x for x in w.effects if x.kind == "delitem" and norm(x.target) == "self.hash_to_index_lookup" and x.loops and x.loops[-1].node is lp]
+        ctx.check(len(dels) == 1, "remove-lockstep", ctx.where(a, lp), "a ('remove', block, k) operation is not paired with `del hash_to_index_lookup[h]`")
 
 
 # ------------------------------------------------------------------ C15.3
